@@ -918,7 +918,8 @@ def zaddNX := zaddWith DsZSet.zAddNX
 
 /-- ZAddLT / ZAddGT: signal only when the score changed -/
 def zaddCmp (f : ZSet → Bytes → F64 → ZSet × Bool) (s : MState) (now : Int) (key m : Bytes) (sc : F64) : R :=
-  let (s, _) := writeKey s now key (some (.zset DsZSet.empty))
+  let (s, ok) := writeKey s now key none        -- LT / GT never create a key
+  if !ok then (s, .int 0) else
   match asZSet s key with
   | none => (s, .panic)
   | some z =>
@@ -1151,23 +1152,14 @@ def zstore (union : Bool) (s : MState) (now : Int) (dst : Bytes) (keys : List By
     let (oid, s) := fresh s
     let s := modMeta s dst fun m => ({ m with oid := oid }.setValue (.zset z'))
     (emit (signal s dst) { typ := if union then 34 else 35, key := dst }, .int items.length)
-  if union then
-    let existed := (getMeta s dst).isSome
-    let (s, _) := writeKey s now dst (some (.zset DsZSet.empty))
-    -- the nested exec read-locks every operand; a destination that was already indexed is
-    -- write-locked by the outer exec (a freshly created record is published unlocked)
-    if keys.contains dst ∧ existed then (s, .hang) else
-    match core s now keys weights agg with
-    | (s, none) => (s, .panic)
-    | (s, some none) => (s, .unsupported)
-    | (s, some (some items)) => step s items
-  else
-    match core s now keys weights agg with
-    | (s, none) => (s, .panic)
-    | (s, some none) => (s, .unsupported)
-    | (s, some (some items)) =>
-      let (s, _) := writeKey s now dst (some (.zset DsZSet.empty))
-      step s items
+  -- both forms compute the result (in a nested transaction that is committed) before the
+  -- destination is looked up, locked or created
+  match core s now keys weights agg with
+  | (s, none) => (s, .panic)
+  | (s, some none) => (s, .unsupported)
+  | (s, some (some items)) =>
+    let (s, _) := writeKey (commit s) now dst (some (.zset DsZSet.empty))
+    step s items
 
 end Api
 end NodisVerif
